@@ -31,7 +31,21 @@ pub fn canon(v: Value) -> Value {
 /// per-field registers with stamps, counters per replica, set membership and tags, expiry, vector
 /// clock, outer stamp, replication factor.
 pub fn proj(v: &ReplicatedValue) -> Value {
-    canon(serde_json::to_value(v).expect("ReplicatedValue serialises"))
+    let mut j = canon(serde_json::to_value(v).expect("ReplicatedValue serialises"));
+    // The payload bytes once more, read through the accessors instead of the payload type's own serde impl: a
+    // projection that renders payloads only through the code under test is blind to a lossy encoding there
+    // (both sides of a comparison would be rendered through the same loss).
+    if let Value::Object(m) = &mut j { m.insert("_payload".to_string(), raw_payload(v)); }
+    j
+}
+fn raw_payload(v: &ReplicatedValue) -> Value {
+    fn hex(b: &[u8]) -> String { let mut s = String::with_capacity(b.len() * 2); for x in b { s.push(char::from_digit((x >> 4) as u32, 16).unwrap()); s.push(char::from_digit((x & 15) as u32, 16).unwrap()); } s }
+    if let Some(l) = v.lww() { return match &l.value { Some(s) => Value::String(hex(s.as_bytes())), None => Value::Null }; }
+    if let Some(h) = v.get_hash() {
+        let m: BTreeMap<String, Value> = h.iter().map(|(f, l)| (f.clone(), match &l.value { Some(s) => Value::String(hex(s.as_bytes())), None => Value::Null })).collect();
+        return serde_json::to_value(m).unwrap_or(Value::Null);
+    }
+    Value::Null
 }
 pub fn proj_s(v: &ReplicatedValue) -> String { proj(v).to_string() }
 /// What convergence (C06) is about: the CRDT body with its stamps, the wrapper stamp used for
